@@ -7,6 +7,9 @@ RULE = ("case = (frame of 1..64 bytes incl. every CAN FD length and odd lengths,
         "signals of width 1..64, both byte orders, signed/unsigned, float32/64; payload random / walking one / "
         "walking zero / constant; API Frame.decode, Frame.unpack(allow_truncated, allow_exceeded), CanMatrix.decode); "
         "length cases = payload lengths 0..2*size x 4 switch combinations x plain/multiplexed/container frames. "
+        "Every decode/encode is observed on objects with a history: the first use of a frame is made with its signals somewhere else "
+        "(then moved into place by assignment), each call is repeated, and once more after another detour; an encode request is also "
+        "made with one values dict used for several selector values. A result that depends on that history is a failure. "
         "Non-trivial = distinct case whose payload is not constant or whose length differs from the declared one.")
 PARTIAL = ["struct.unpack('>f'/'>d') (IEEE-754 conversion) is trusted: float signals are compared as bit patterns, NaN as a class",
            "PDU-container frames are modelled up to the length check only"]
